@@ -1,4 +1,5 @@
 import GoatSpec.Proofs.Walk
+import GoatSpec.Proofs.Mono
 /-! # C09 — tracking points appear only where a change justifies them, once.
 
 The theorems are about the bookkeeping fold of `increment.go` (`runEvents`) for **every** event
@@ -132,6 +133,41 @@ theorem func_positions (env : Env) (hg : env.gran = .func) (st st' : MState) (li
       · exact Or.inl h1
       · exact Or.inr ⟨s, e, hs, by simpa using hne, h1⟩
     · cases h
+
+/-- **the number of tracking points never increases from line to patch / scope granularity**:
+    for every event list (the events do not depend on the granularity), whenever both folds
+    terminate normally, the positions chosen at patch or scope granularity are among those
+    chosen at line granularity, the single-line positions are the same, and so
+    `count` does not increase. -/
+theorem coarser_sub_line (env : Env) (g : Gran) (hg : g ≠ .func) (evs : List Ev) (sC sL : MState)
+    (hC : runEvents (env.withGran g) evs = .ok sC) (hL : runEvents (env.withGran .line) evs = .ok sL) :
+    (∀ x ∈ sC.multi, x ∈ sL.multi) ∧ sC.singles = sL.singles ∧ sC.count ≤ sL.count := by
+  have h := run_sub_line env g hg evs {} sC {} sL (Inv.init _) (Inv.init _) hC hL (by intro x hx; cases hx) rfl
+  have iC := runEvents_inv _ evs sC hC
+  have iL := runEvents_inv _ evs sL hL
+  refine ⟨h.1, h.2, ?_⟩
+  rw [iC.count, iL.count, h.2]
+  have := List.Nodup.length_le_of_subset iC.nodup (fun x hx => h.1 x hx)
+  omega
+
+/-- **… nor from patch to scope granularity**: every scope key's first event inserts at patch
+    granularity too (a fresh patch-scope array never blocks), so the scope positions are among
+    the patch positions and `count` does not increase. Together with `coarser_sub_line`:
+    count(line) ≥ count(patch) ≥ count(scope). -/
+theorem scope_sub_patch (env : Env) (evs : List Ev) (sS sP : MState)
+    (hS : runEvents (env.withGran .scope) evs = .ok sS) (hP : runEvents (env.withGran .patch) evs = .ok sP) :
+    (∀ x ∈ sS.multi, x ∈ sP.multi) ∧ sS.singles = sP.singles ∧ sS.count ≤ sP.count := by
+  have h0 : SPRel ({} : MState) ({} : MState) := by
+    refine ⟨?_, rfl, ?_⟩
+    · intro x hx; cases hx
+    · intro key; rfl
+  have h := run_scope_patch env evs {} sS {} sP (Inv.init _) (Inv.init _) hS hP h0
+  have iS := runEvents_inv _ evs sS hS
+  have iP := runEvents_inv _ evs sP hP
+  refine ⟨h.sub, h.singles, ?_⟩
+  rw [iS.count, iP.count, h.singles]
+  have := List.Nodup.length_le_of_subset iS.nodup (fun x hx => h.sub x hx)
+  omega
 
 def exampleEnv : Env :=
   { gran := .line, n := 6, changed := #[false, false, false, true, false, true, false],
